@@ -331,7 +331,12 @@ public:
 	if (!old_v) {
 	  _tree.remove(k);
 	} else {
-	  _tree.insert(k, *old_v | v);
+	  Value z = *old_v | v;
+	  if (z.is_top()) {
+	    _tree.remove(k);
+	  } else {
+	    _tree.insert(k, z);
+	  }
 	}
       }
     }
